@@ -26,3 +26,27 @@ def aliveWAF (online : List Bool) (owners : List Nat) (read hardWrite : Bool) : 
     go 0 owners
 
 end OG.C11
+
+namespace OG.C11
+
+/-! ### column store: `Row.UnmarshalShardKeyByField`
+
+`updateShardGroupAndShardKey` builds the shard key of a COLUMNSTORE row with
+`UnmarshalShardKeyByField`: for every shard-key name in declared order, the first tag of that
+name, else the first field of that name (its string value), else the row is rejected. -/
+
+/-- `fields` are (key, `StrValue`) pairs. -/
+def fieldKeyWalk : List String → List Tag → List Tag → String → Except WErr String
+  | [], _, _, sk => .ok sk
+  | k :: ks, tags, fields, sk =>
+    match tags.find? (·.1 == k) with
+    | some t => fieldKeyWalk ks tags fields (appendShardKey sk t)
+    | none =>
+      match fields.find? (·.1 == k) with
+      | some f => fieldKeyWalk ks tags fields (appendShardKey sk f)
+      | none => .error .missingShardKey
+
+def shardKeyByField (name : String) (key : List String) (tags fields : List Tag) : Except WErr String :=
+  fieldKeyWalk key tags fields name
+
+end OG.C11
